@@ -62,25 +62,28 @@ CONSTANTS Threads,      \* thread ids (positive integers or model values)
 
 VARIABLES fns,          \* live function objects
           used,         \* code ids ever used (never reused: a new code object is a new identity)
-          cache,        \* [Codes \X Opts -> Nat]  0 = absent, n = factory number
+          cache,        \* [Codes \X Opts -> factory]  NoFac = absent
           owner, depth, \* the RLock
           stack,        \* [Threads -> Seq(Frame)]  the requests a thread is inside of
           ntr,          \* [Codes \X Opts -> Nat]  successful transforms per (code, options)
-          nfac,         \* factories made so far
-          facKey,       \* Seq(<<code, opts>>)  what factory n was made from
-          facEnv,       \* Seq(env or 0)  only used by Mutant = "bindfirst"
+          facEnv,       \* [Keys -> env or 0]  only used by Mutant = "bindfirst"
           returned,     \* history of completed requests
           cnt           \* [req: [Threads -> Nat], nest, fail, redef, coll: Nat]
 
-vars == <<fns, used, cache, owner, depth, stack, ntr, nfac, facKey, facEnv, returned, cnt>>
+vars == <<fns, used, cache, owner, depth, stack, ntr, facEnv, returned, cnt>>
 
 F(c, e) == [code |-> c, env |-> e]
 Keys == Codes \X Opts
 NoOwner == 0
+(* A factory is named by what it was made from and by how many successful transforms of *)
+(* that key preceded it: <<code, opts, n>>.  (No global numbering: the order in which   *)
+(* unrelated factories are made is irrelevant.)                                         *)
+NoFac == <<0, 0, 0>>
+FacKey(fc) == <<fc[1], fc[2]>>
 
 (* ---- frames ------------------------------------------------------------ *)
 NewFrame(f, o) == [code |-> f.code, env |-> f.env, o |-> o, pc |-> "fast",
-                   seen |-> FALSE, fac |-> 0, renv |-> 0]
+                   seen |-> FALSE, fac |-> NoFac, renv |-> 0]
 Busy(t)      == stack[t] # <<>>
 Top(t)       == stack[t][Len(stack[t])]
 At(t, p)     == Busy(t) /\ Top(t).pc = p
@@ -94,7 +97,7 @@ Goto(t, p)   == stack' = SetTop(t, [Top(t) EXCEPT !.pc = p])
 RealKey(fr) == <<fr.code, fr.o>>
 Key(fr) == <<IF Mutant = "keybyenv" THEN fr.env ELSE fr.code,
              IF Mutant = "dropopts" THEN CHOOSE o \in Opts : \A p \in Opts : o <= p ELSE fr.o>>
-Cached(fr) == cache[Key(fr)] # 0
+Cached(fr) == cache[Key(fr)] # NoFac
 
 (* pcs at which the code is inside `with self._cache_lock:` *)
 LockedPcs == {"recheck", "lockget", "transform", "transforming", "store", "release", "failrel"}
@@ -102,10 +105,10 @@ LockedPcs == {"recheck", "lockget", "transform", "transforming", "store", "relea
 (* ---- initial state ------------------------------------------------------ *)
 InitWith(F0) ==
   /\ fns = F0 /\ used = {f.code : f \in F0}
-  /\ cache = [k \in Keys |-> 0]
+  /\ cache = [k \in Keys |-> NoFac]
   /\ owner = NoOwner /\ depth = 0
   /\ stack = [t \in Threads |-> <<>>]
-  /\ ntr = [k \in Keys |-> 0] /\ nfac = 0 /\ facKey = <<>> /\ facEnv = <<>>
+  /\ ntr = [k \in Keys |-> 0] /\ facEnv = [k \in Keys |-> 0]
   /\ returned = {}
   /\ cnt = [req |-> [t \in Threads |-> 0], nest |-> 0, fail |-> 0, redef |-> 0, coll |-> 0]
 Init == InitWith(InitFns)
@@ -115,104 +118,103 @@ Start(t, f, o) ==
   /\ ~Busy(t) /\ cnt.req[t] < MaxReq /\ f \in fns
   /\ stack' = Push(t, NewFrame(f, o))
   /\ cnt' = [cnt EXCEPT !.req[t] = @ + 1]
-  /\ UNCHANGED <<fns, used, cache, owner, depth, ntr, nfac, facKey, facEnv, returned>>
+  /\ UNCHANGED <<fns, used, cache, owner, depth, ntr, facEnv, returned>>
 
 (* lock-free has(): begin / atomic read / end *)
 HasBegin(t) ==
   /\ At(t, "fast") /\ Goto(t, "fastrd")
-  /\ UNCHANGED <<fns, used, cache, owner, depth, ntr, nfac, facKey, facEnv, returned, cnt>>
+  /\ UNCHANGED <<fns, used, cache, owner, depth, ntr, facEnv, returned, cnt>>
 FastRead(t) ==
   /\ At(t, "fastrd")
   /\ stack' = SetTop(t, [Top(t) EXCEPT !.seen = Cached(Top(t)), !.pc = "fastrdd"])
-  /\ UNCHANGED <<fns, used, cache, owner, depth, ntr, nfac, facKey, facEnv, returned, cnt>>
+  /\ UNCHANGED <<fns, used, cache, owner, depth, ntr, facEnv, returned, cnt>>
 HasEnd(t) ==
-  /\ At(t, "fastrdd") /\ Goto(t, IF Top(t).seen THEN "fastget" ELSE "wait")
-  /\ UNCHANGED <<fns, used, cache, owner, depth, ntr, nfac, facKey, facEnv, returned, cnt>>
+  /\ At(t, "fastrdd")
+  /\ stack' = SetTop(t, [Top(t) EXCEPT !.seen = FALSE, !.pc = IF Top(t).seen THEN "fastget" ELSE "wait"])
+  /\ UNCHANGED <<fns, used, cache, owner, depth, ntr, facEnv, returned, cnt>>
 (* fast path: self._cache[fn][subkey] without the lock (a missing entry would be a KeyError: FastGetSafe) *)
 FastGet(t) ==
   /\ At(t, "fastget") /\ Cached(Top(t))
   /\ stack' = SetTop(t, [Top(t) EXCEPT !.fac = cache[Key(Top(t))], !.pc = "inst"])
-  /\ UNCHANGED <<fns, used, cache, owner, depth, ntr, nfac, facKey, facEnv, returned, cnt>>
+  /\ UNCHANGED <<fns, used, cache, owner, depth, ntr, facEnv, returned, cnt>>
 
 (* slow path *)
 Acquire(t) ==
   /\ At(t, "wait") /\ owner \in {NoOwner, t}
   /\ owner' = t /\ depth' = depth + 1
   /\ Goto(t, IF Mutant = "norecheck" THEN "transform" ELSE "recheck")
-  /\ UNCHANGED <<fns, used, cache, ntr, nfac, facKey, facEnv, returned, cnt>>
+  /\ UNCHANGED <<fns, used, cache, ntr, facEnv, returned, cnt>>
 ReCheck(t) ==
   /\ At(t, "recheck") /\ Goto(t, IF Cached(Top(t)) THEN "lockget" ELSE "transform")
-  /\ UNCHANGED <<fns, used, cache, owner, depth, ntr, nfac, facKey, facEnv, returned, cnt>>
+  /\ UNCHANGED <<fns, used, cache, owner, depth, ntr, facEnv, returned, cnt>>
 LockGet(t) ==
   /\ At(t, "lockget")
   /\ stack' = SetTop(t, [Top(t) EXCEPT !.fac = cache[Key(Top(t))], !.pc = "release"])
-  /\ UNCHANGED <<fns, used, cache, owner, depth, ntr, nfac, facKey, facEnv, returned, cnt>>
+  /\ UNCHANGED <<fns, used, cache, owner, depth, ntr, facEnv, returned, cnt>>
 TransformBegin(t) ==
   /\ At(t, "transform") /\ Goto(t, "transforming")
-  /\ UNCHANGED <<fns, used, cache, owner, depth, ntr, nfac, facKey, facEnv, returned, cnt>>
+  /\ UNCHANGED <<fns, used, cache, owner, depth, ntr, facEnv, returned, cnt>>
 (* transform_ast of the top frame asks the same transpiler to convert another function *)
 Nested(t, f, o) ==
   /\ At(t, "transforming") /\ Len(stack[t]) < MaxDepth /\ cnt.nest < MaxNest /\ f \in fns
   /\ \A i \in 1..Len(stack[t]) : RealKey(stack[t][i]) # <<f.code, o>>
   /\ stack' = Push(t, NewFrame(f, o))
   /\ cnt' = [cnt EXCEPT !.nest = @ + 1]
-  /\ UNCHANGED <<fns, used, cache, owner, depth, ntr, nfac, facKey, facEnv, returned>>
+  /\ UNCHANGED <<fns, used, cache, owner, depth, ntr, facEnv, returned>>
 TransformFail(t) ==
   /\ At(t, "transforming") /\ cnt.fail < MaxFail /\ Goto(t, "failrel")
   /\ cnt' = [cnt EXCEPT !.fail = @ + 1]
-  /\ UNCHANGED <<fns, used, cache, owner, depth, ntr, nfac, facKey, facEnv, returned>>
+  /\ UNCHANGED <<fns, used, cache, owner, depth, ntr, facEnv, returned>>
 TransformOk(t) ==
   /\ At(t, "transforming")
-  /\ nfac' = nfac + 1
-  /\ facKey' = Append(facKey, RealKey(Top(t))) /\ facEnv' = Append(facEnv, 0)
   /\ ntr' = [ntr EXCEPT ![RealKey(Top(t))] = @ + 1]
-  /\ stack' = SetTop(t, [Top(t) EXCEPT !.fac = nfac + 1,
+  /\ stack' = SetTop(t, [Top(t) EXCEPT !.fac = <<Top(t).code, Top(t).o, ntr[RealKey(Top(t))] + 1>>,
                                        !.pc = IF Mutant = "earlyrelease" THEN "m_release" ELSE "store"])
-  /\ UNCHANGED <<fns, used, cache, owner, depth, returned, cnt>>
+  /\ UNCHANGED <<fns, used, cache, owner, depth, facEnv, returned, cnt>>
 Store(t) ==
   /\ At(t, "store")
   /\ cache' = [cache EXCEPT ![Key(Top(t))] = Top(t).fac]
   /\ Goto(t, "release")
-  /\ UNCHANGED <<fns, used, owner, depth, ntr, nfac, facKey, facEnv, returned, cnt>>
+  /\ UNCHANGED <<fns, used, owner, depth, ntr, facEnv, returned, cnt>>
 Unlock == /\ depth' = depth - 1
           /\ owner' = IF depth = 1 THEN NoOwner ELSE owner
 Release(t) ==
   /\ At(t, "release") /\ owner = t /\ Unlock /\ Goto(t, "inst")
-  /\ UNCHANGED <<fns, used, cache, ntr, nfac, facKey, facEnv, returned, cnt>>
+  /\ UNCHANGED <<fns, used, cache, ntr, facEnv, returned, cnt>>
 (* the exception leaves the with block: nothing stored, lock released ... *)
 ReleaseFail(t) ==
   /\ At(t, "failrel") /\ owner = t /\ Unlock /\ Goto(t, "raise")
-  /\ UNCHANGED <<fns, used, cache, ntr, nfac, facKey, facEnv, returned, cnt>>
+  /\ UNCHANGED <<fns, used, cache, ntr, facEnv, returned, cnt>>
 (* ... and propagates to the caller (for a nested request: into the outer transform_ast) *)
 Raise(t) ==
   /\ At(t, "raise") /\ stack' = Pop(t)
-  /\ UNCHANGED <<fns, used, cache, owner, depth, ntr, nfac, facKey, facEnv, returned, cnt>>
+  /\ UNCHANGED <<fns, used, cache, owner, depth, ntr, facEnv, returned, cnt>>
 
 (* factory.instantiate(fn.__globals__, fn.__closure__, fn.__defaults__, ..) *)
 Instantiate(t) ==
   /\ At(t, "inst")
   /\ LET fr == Top(t)
-         e == IF Mutant = "bindfirst" /\ facEnv[fr.fac] # 0 THEN facEnv[fr.fac] ELSE fr.env
+         e == IF Mutant = "bindfirst" /\ facEnv[FacKey(fr.fac)] # 0 THEN facEnv[FacKey(fr.fac)] ELSE fr.env
      IN /\ stack' = SetTop(t, [fr EXCEPT !.renv = e, !.pc = "ret"])
-        /\ facEnv' = IF Mutant = "bindfirst" /\ facEnv[fr.fac] = 0
-                       THEN [facEnv EXCEPT ![fr.fac] = fr.env] ELSE facEnv
-  /\ UNCHANGED <<fns, used, cache, owner, depth, ntr, nfac, facKey, returned, cnt>>
+        /\ facEnv' = IF Mutant = "bindfirst" /\ facEnv[FacKey(fr.fac)] = 0
+                       THEN [facEnv EXCEPT ![FacKey(fr.fac)] = fr.env] ELSE facEnv
+  /\ UNCHANGED <<fns, used, cache, owner, depth, ntr, returned, cnt>>
 Return(t) ==
   /\ At(t, "ret")
   /\ LET fr == Top(t) IN
        returned' = returned \cup {[code |-> fr.code, env |-> fr.env, o |-> fr.o, fac |-> fr.fac, renv |-> fr.renv]}
   /\ stack' = Pop(t)
-  /\ UNCHANGED <<fns, used, cache, owner, depth, ntr, nfac, facKey, facEnv, cnt>>
+  /\ UNCHANGED <<fns, used, cache, owner, depth, ntr, facEnv, cnt>>
 
 (* ---- only reachable when Mutant = "earlyrelease": lock released before the store *)
 MRelease(t) ==
   /\ At(t, "m_release") /\ owner = t /\ Unlock /\ Goto(t, "m_store")
-  /\ UNCHANGED <<fns, used, cache, ntr, nfac, facKey, facEnv, returned, cnt>>
+  /\ UNCHANGED <<fns, used, cache, ntr, facEnv, returned, cnt>>
 MStore(t) ==
   /\ At(t, "m_store")
   /\ cache' = [cache EXCEPT ![Key(Top(t))] = Top(t).fac]
   /\ Goto(t, "inst")
-  /\ UNCHANGED <<fns, used, owner, depth, ntr, nfac, facKey, facEnv, returned, cnt>>
+  /\ UNCHANGED <<fns, used, owner, depth, ntr, facEnv, returned, cnt>>
 
 (* ---- environment --------------------------------------------------------- *)
 InFlight(c) == \E t \in Threads : \E i \in 1..Len(stack[t]) : stack[t][i].code = c
@@ -221,7 +223,7 @@ DefineFn(f) ==
   /\ f \notin fns /\ f.code \in Codes /\ f.env \in Envs
   /\ f.code \in used => \E g \in fns : g.code = f.code      \* a dead code object never comes back
   /\ fns' = fns \cup {f} /\ used' = used \cup {f.code}
-  /\ UNCHANGED <<cache, owner, depth, stack, ntr, nfac, facKey, facEnv, returned>>
+  /\ UNCHANGED <<cache, owner, depth, stack, ntr, facEnv, returned>>
 FreshCode == CHOOSE c \in Codes \ used : \A d \in Codes \ used : c <= d
 (* same name, same globals/closure/defaults, new code object; the old function object may live on *)
 Redefine(f) ==
@@ -232,9 +234,9 @@ Redefine(f) ==
 Collect(c) ==
   /\ cnt.coll < MaxCollect /\ (\E f \in fns : f.code = c) /\ ~InFlight(c)
   /\ fns' = {f \in fns : f.code # c}
-  /\ cache' = [k \in Keys |-> IF k[1] = c /\ Mutant # "keybyenv" THEN 0 ELSE cache[k]]
+  /\ cache' = [k \in Keys |-> IF k[1] = c /\ Mutant # "keybyenv" THEN NoFac ELSE cache[k]]
   /\ cnt' = [cnt EXCEPT !.coll = @ + 1]
-  /\ UNCHANGED <<used, owner, depth, stack, ntr, nfac, facKey, facEnv, returned>>
+  /\ UNCHANGED <<used, owner, depth, stack, ntr, facEnv, returned>>
 
 (* ---- next-state relation -------------------------------------------------- *)
 Step(t) == \/ HasBegin(t) \/ FastRead(t) \/ HasEnd(t) \/ FastGet(t)
@@ -276,15 +278,14 @@ TypeOK ==
   /\ fns \subseteq [code : Codes, env : Envs] /\ used \subseteq Codes
   /\ owner \in Threads \cup {NoOwner} /\ depth \in 0..MaxDepth
   /\ \A t \in Threads : Len(stack[t]) <= MaxDepth
-  /\ nfac = Len(facKey) /\ nfac = Len(facEnv)
-  /\ \A k \in Keys : cache[k] \in 0..nfac
+  /\ \A k \in Keys : cache[k] = NoFac \/ (FacKey(cache[k]) \in Keys /\ cache[k][3] \in 1..ntr[FacKey(cache[k])])
 
 (* the source transformation of a (code object, options) pair runs at most once *)
 AtMostOnce == \A k \in Keys : ntr[k] <= 1
 
 (* what a request gets = Bind(the factory made from (code(fn), opts), env(fn)) *)
-CoherentRec(r) == /\ r.fac \in 1..nfac
-                  /\ facKey[r.fac] = <<r.code, r.o>>
+CoherentRec(r) == /\ r.fac # NoFac
+                  /\ FacKey(r.fac) = <<r.code, r.o>>
                   /\ r.renv = r.env
 Coherent == /\ \A r \in returned : CoherentRec(r)
             /\ \A fr \in AllFrames : fr.pc = "ret" => CoherentRec(fr)
@@ -294,11 +295,11 @@ NoAlias == \A r1, r2 \in returned :
              (r1.o # r2.o \/ r1.env # r2.env) => <<r1.fac, r1.renv>> # <<r2.fac, r2.renv>>
 
 (* a function is never served a factory made from another code object (the old definition) *)
-NoStale == /\ \A r \in returned : r.fac \in 1..nfac /\ facKey[r.fac][1] = r.code
-           /\ \A fr \in AllFrames : fr.fac # 0 => facKey[fr.fac][1] = fr.code
+NoStale == /\ \A r \in returned : r.fac[1] = r.code
+           /\ \A fr \in AllFrames : fr.fac # NoFac => fr.fac[1] = fr.code
 
 (* the table files every factory under the key it was made from *)
-CacheCoherent == \A k \in Keys : cache[k] # 0 => facKey[cache[k]] = k
+CacheCoherent == \A k \in Keys : cache[k] # NoFac => FacKey(cache[k]) = k
 
 (* transform / store / recheck only by the lock owner; the depth counts the with blocks *)
 LockDiscipline ==
